@@ -3482,7 +3482,7 @@ void set_inc_list (const char *list) {
   inc_list_size = size;
   for (i = size - 1; i >= 0; i--)
     {
-      p = strrchr (list, ':'); /* get one path from the end of list */
+      p = strrchr (list_copy, ':'); /* get one path from the end of the (modifiable) copy */
       if (p)
         {
           *p = '\0';
